@@ -66,7 +66,7 @@ def make_value(kind, token):
             'list': [1, token, {'k': token}], 'dict': {'inner': [token, 2], token: 1}, 'tuple': (token, (token,)),
             'reprobj': ReprEmbeds(token), 'reprraises': ReprRaises(token), 'reprraises-bare': ReprRaisesBare(token),
             'reprraises-keyerror': ReprRaisesKeyError(token), 'long': token + 'x' * 200, 'markup': '<b>%s</b>&"' % token,
-            'badstr': BadStr(token), 'none': None, 'nested': {'a': {'b': {'c': [token] * 3}}}, 'set': {token}}[kind]
+            'badstr': BadStr(token), 'none': None, 'rawbytes': b'\xff\xfe' + token.encode() + b'\x80', 'bytearray': bytearray(token.encode()), 'nested': {'a': {'b': {'c': [token] * 3}}}, 'set': {token}}[kind]
 
 
 NAMES_SECRET = ['secret', 'secret_key', 'api_secret', 'my_secret_token', 'xsecretx', 'db_secret_', 'secrets', 'client-secret', 'a.secret.b',
@@ -75,7 +75,8 @@ NAMES_SECRET = ['secret', 'secret_key', 'api_secret', 'my_secret_token', 'xsecre
                 'x' * 34 + 'secret' + 'y' * 30, 'secret' + 'z' * 80]
 NAMES_PLAIN = ['db', 'config', 'name', 'iterable', 'start', 'api_key_id', 'motd', 'k', 'res<zq9m>', 'sec_ret', 'secre', 'ecret',
                'a_long_plain_resource_name_that_is_wider_than_any_column_' + 'w' * 30]
-VALUE_KINDS = ['str', 'bytes', 'int', 'list', 'dict', 'tuple', 'reprobj', 'long', 'markup', 'nested', 'set', 'badstr', 'none', 'float']
+VALUE_KINDS = ['str', 'bytes', 'int', 'list', 'dict', 'tuple', 'reprobj', 'long', 'markup', 'nested', 'set', 'badstr', 'none', 'float',
+               'rawbytes', 'bytearray']
 ENDPOINTS = ['func', 'lambda', 'method', 'callable', 'static', 'classm', 'decorated', 'builtin', 'uses-resource', 'doc',
              'defaults', 'defaults-kwonly', 'defaults-mixed']
 
